@@ -146,15 +146,25 @@ def decGuess (s : String) : List (Str × (Option Str × Option Str)) :=
     | [a, m, e] => some (decStr a, (decOpt m, decOpt e))
     | _ => none
 
-def mkSiteCfg (umn gm : Bool) (alts : List RAlt) (g : String) (t : String) (st : String) : SiteCfg :=
+/-- `chain`: `U` = url.HTMLURLHandler first, `G` = gophermap handler, `M` = UMN (else plain) directory handler,
+    `H` = html.HTMLFileTitleHandler before the file handler.  `titles`: `sel;isHtml(T/F);title-or-!` records. -/
+def mkSiteCfg (chain : String) (alts : List RAlt) (g : String) (t : String) (st : String) (titles : String := "~") : SiteCfg :=
   let gt := decGuess g
   let tt := decTable2 t
   let stt := decTable2 st
-  { forbidden := Generated.forbidden, eaexts := Generated.eaexts, defaultMime := Generated.defaultMime, gophermap := gm,
-    dir := { ignore := alts, extstrip := Generated.extstrip, umn := umn },
+  let tl : List (Str × Bool × Option Str) := if titles == "~" then [] else (titles.splitOn " ").filterMap fun r =>
+    match r.splitOn ";" with
+    | [a, h, ti] => some (decStr a, decBool h, decOpt ti)
+    | _ => none
+  let has (c : Char) : Bool := chain.toList.contains c
+  { forbidden := Generated.forbidden, eaexts := Generated.eaexts, defaultMime := Generated.defaultMime, gophermap := has 'G',
+    dir := { ignore := alts, extstrip := Generated.extstrip, umn := has 'M' },
     guess := fun sel => ((gt.find? (·.1 == sel)).map (·.2)).getD (none, none),
     typeOf := fun m => ((tt.find? (·.1 == m)).map (·.2)).getD (lit "0"),
-    strip := fun n => ((stt.find? (·.1 == n)).map (·.2)).getD n }
+    strip := fun n => ((stt.find? (·.1 == n)).map (·.2)).getD n,
+    url := has 'U', urlForbidden := Generated.urlForbidden, htmlTitles := has 'H',
+    isHtml := fun sel => ((tl.find? (·.1 == sel)).map (·.2.1)).getD false,
+    title := fun sel => ((tl.find? (·.1 == sel)).bind (·.2.2)) }
 
 def tstateOf (s : String) : TState :=
   match s with | "tag" => .tag | "dq" => .attrDq | "sq" => .attrSq | _ => .text
@@ -248,20 +258,22 @@ def step (fields : List String) : String :=
                  (viewOf view) (decBool gplusReq) self es with
          | none => "CRASH-RENDER"
          | some b => encStr b)
-  | ["site", umn, gm, view, gplusReq, srvName, srvPort, absH, absE, tree, g, t, st, queries] =>
+  | ["site", chain, titles, view, gplusReq, srvName, srvPort, absH, absE, tree, g, t, st, queries] =>
     (match parseRegex Generated.ignorePatt with
      | none => "REGEX-UNSUPPORTED"
      | some alts =>
        let R := decTree tree
-       let c := mkSiteCfg (decBool umn) (decBool gm) alts g t st
+       let c := mkSiteCfg chain alts g t st titles
        let sf : StatFn := statAt R
        " ".intercalate ((decList queries).map fun q =>
          (match serve c sf q with
           | .notFound => "N"
           | .menu => "M"
-          | .document d => "D:" ++ encStr d) ++ "|" ++
+          | .document d => "D:" ++ encStr d
+          | .generated tx => "G:" ++ encStr tx) ++ "|" ++
          (match dispatch c sf q with
-          | .notFound => "n" | .gophermapDir => "gd" | .gophermapFile => "gf" | .dir => "d" | .file => "f") ++ "|" ++
+          | .notFound => "n" | .gophermapDir => "gd" | .gophermapFile => "gf" | .dir => "d" | .file => "f"
+          | .url => "u" | .htmlFile => "h") ++ "|" ++
          (if (dispatch c sf q).isMenu then
             match siteEntries c sf q with
             | none => "CRASH-LISTING"
@@ -272,13 +284,13 @@ def step (fields : List String) : String :=
               | none => "CRASH-RENDER"
               | some b => encStr b
           else "!")))
-  | ["answer", umn, gm, srvName, srvPort, absH, absE, gemFoot, spaFoot, protos, tree, g, t, st, requests] =>
+  | ["answer", chain, titles, srvName, srvPort, absH, absE, gemFoot, spaFoot, protos, tree, g, t, st, requests] =>
     -- requests: space separated `tls;line;rest-lines`; output per request: pieces `T:<str>` / `B:<bytes>` joined by `;`, or NONE
     (match parseRegex Generated.ignorePatt with
      | none => "REGEX-UNSUPPORTED"
      | some alts =>
        let R := decTree tree
-       let sc := mkSiteCfg (decBool umn) (decBool gm) alts g t st
+       let sc := mkSiteCfg chain alts g t st titles
        let c : ServeCfg := { site := sc, render := mkRenderCfg (decStr srvName) srvPort.toNat! (decBool absH) (decStr absE),
                              waptop := Generated.waptop, protos := (decList protos).filterMap Proto.ofName,
                              geminiFooter := decOpt gemFoot, spartanFooter := decOpt spaFoot }
